@@ -22,7 +22,7 @@ from ..core import Facet, Violation, HarnessError, require, canon, setup_path
 from .. import sched
 
 setup_path()
-from eliot import MemoryLogger, MessageType, Field, FileDestination, write_traceback  # noqa: E402
+from eliot import MemoryLogger, MessageType, Field, FileDestination, ValidationError, write_traceback  # noqa: E402
 from eliot import _output  # noqa: E402
 from eliot._traceback import TRACEBACK_MESSAGE  # noqa: E402
 
@@ -98,6 +98,7 @@ def check_memorylogger(case):
     flushed = []
     lock = threading.Lock()
     had_reset = any(op[0] == "reset" for ops in threads_ops for op in ops)
+    has_invalid = any(op[0] == "write_invalid" for ops in threads_ops for op in ops)
 
     def worker(tid, ops):
         def run():
@@ -114,8 +115,19 @@ def check_memorylogger(case):
                     write_traceback(logger, exc_info=(type(e), e, None))
                     with lock:
                         written.append(("tb", "%d.%d" % (tid, k)))
+                elif kind == "write_invalid":
+                    sid = op[1] % len(types)
+                    msg = {"message_type": types[sid].message_type, "v": op[2], "sid": sid, "who": "%d.%d" % (tid, k), "undeclared": 1, "task_uuid": "u", "task_level": [1], "timestamp": 1.0}
+                    logger.write(msg, types[sid]._serializer)
+                    with lock:
+                        written.append(("w", "%d.%d" % (tid, k)))
                 elif kind == "validate":
-                    logger.validate()
+                    try:
+                        logger.validate()
+                    except (ValidationError, TypeError):
+                        # by design when an invalid message was written
+                        if not has_invalid:
+                            raise
                 elif kind == "serialize":
                     snap = logger.serialize()
                     with lock:
@@ -196,6 +208,7 @@ def ml_ops():
         st.tuples(st.just("write"), st.integers(0, 3), st.integers(0, 9)).map(list),
         st.tuples(st.just("write"), st.integers(0, 3), st.integers(0, 9)).map(list),
         st.tuples(st.just("tb"), st.integers(0, 1)).map(list),
+        st.tuples(st.just("write_invalid"), st.integers(0, 3), st.integers(0, 9)).map(list),
         st.just(["validate"]),
         st.just(["serialize"]),
         st.tuples(st.just("flush"), st.integers(0, 1)).map(list),
@@ -224,9 +237,10 @@ def ml_enum_runner(mod, facet, tier, seed, shard, nshards, stats):
         [[["write", 0, 1]], [["serialize"]], [["write", 1, 5]]],
         [[["write", 0, 1]], [["validate"]], [["tb", 1]]],
         [[["write", 0, 1], ["reset"]], [["write", 1, 2], ["write", 2, 2]]],
+        [[["write_invalid", 0, 1], ["validate"], ["write", 1, 2]], [["write", 2, 3]]],
     ]
     if tier == "quick":
-        mixes = mixes[:4]
+        mixes = mixes[:4] + mixes[-1:]
     cases = []
     for mix in mixes:
         n = len(mix)
